@@ -69,7 +69,24 @@ def entry_points():
         def read(self, n=-1):
             return self._s.read(n)
 
+    def from_file(fn):
+        """the parser on a real buffered file object: its read(n) allocates n bytes before it knows the file is shorter"""
+        import tempfile
+
+        def f(b):
+            with tempfile.TemporaryFile() as fh:
+                fh.write(b)
+                fh.seek(0)
+                return fn(fh)
+        return f
+
     eps = {
+        "script.read_from.file": from_file(Script.read_from),
+        "witness.read_from.file": from_file(Witness.read_from),
+        "tx.read_from.file": from_file(Transaction.read_from),
+        "psbt.read_from.file": from_file(PSBT.read_from),
+        "ltx.read_from.file": from_file(LTransaction.read_from),
+        "pset.read_from.file": from_file(PSET.read_from),
         "psbt.read_from.noseek": lambda b: PSBT.read_from(OnlyRead(b)),
         "pset.read_from.noseek": lambda b: PSET.read_from(OnlyRead(b)),
         "tx.read_from.noseek": lambda b: Transaction.read_from(OnlyRead(b)),
